@@ -23,6 +23,7 @@ CONSTANTS NB,         \* number of beads
           Inits,      \* set of [mol |-> <<..>>, ias |-> <<..>>]
           OpPairs,    \* ordered bead pairs used as arguments of Insert/RemoveExclusion
           OpLists,    \* bead lists used as arguments of ExcludeList / Remove / InsertExclusion(bead, list)
+          WithInsL,   \* whether InsertExclusion(bead, list) is among the calls
           Depth, Emit, FixedRemove
 VARIABLES mol, ias, ex, a, h
 vars == <<mol, ias, ex, a, h>>
@@ -94,7 +95,7 @@ InsL(l) == Step("insl", l, ex \cup ({{l[1], l[k]} : k \in 2..Len(l)} \ {{l[1]}})
 Next == /\ Len(h) < Depth
         /\ \/ Create
            \/ \E p \in OpPairs : Ins(p) \/ Rem(p)
-           \/ \E l \in OpLists : ExL(l) \/ RemL(l) \/ InsL(l)
+           \/ \E l \in OpLists : ExL(l) \/ RemL(l) \/ (WithInsL /\ InsL(l))
 Spec == Init /\ [][Next]_vars
 
 \* ---- properties ------------------------------------------------------------------
